@@ -122,6 +122,16 @@ func (sr *StreamReader) read(bs []byte) (int, error) {
 }
 
 func (sr *StreamReader) discardSeek(n int64) error {
+	if n > 0 {
+		// Seeking past the end of the input is not an error for a Seeker:
+		// seek to the last of the bytes and read that one, so that input
+		// which ends early is reported here, as it is for plain Readers.
+		if _, err := sr._seeker.Seek(n-1, io.SeekCurrent); err == nil {
+			_, err = sr.read(sr.buffer[:1])
+			return err
+		}
+	}
+
 	if _, err := sr._seeker.Seek(n, io.SeekCurrent); err != nil {
 		// Not everything with a Seek method can seek: an *os.File may be
 		// a pipe, a socket or a terminal. Read past the bytes instead,
